@@ -39,11 +39,11 @@ def parametric_cases(rng, n):
         c = rng.choice(conds) % k
         form = rng.randint(0, 5)
         if form == 0:
-            g = 'start: item::0\nitem::_: "a" item::incr(_) | tail::_\ntail::_: "!" %%if %s\n' % c
+            g = 'start: item::0\nitem::_: "a" item::incr([0:3]) | tail::_\ntail::_: "!" %%if %s\n' % c
         elif form == 1:
-            g = 'start: item::0\nitem::_: "a" item::incr(_) | tail::_ | "b" tail::_\ntail::_: "!" %%if %s\n' % c
+            g = 'start: item::0\nitem::_: "a" item::incr([0:3]) | tail::_ | "b" tail::_\ntail::_: "!" %%if %s\n' % c
         elif form == 2:
-            g = 'start: item::0\nitem::_: "a" item::incr(_) | fwd::_\nfwd::_: tail::_ %%if %s\ntail::_: "!" | "?" "!"\n' % c
+            g = 'start: item::0\nitem::_: "a" item::incr([0:3]) | fwd::_\nfwd::_: tail::_ %%if %s\ntail::_: "!" | "?" "!"\n' % c
         elif form == 3:
             nb = rng.randint(2, 3)
             alts = ['""                       %%if is_ones([0:%d])' % nb] + ['"%s" perm::set_bit(%d)     %%if bit_clear(%d)' % ("abc"[j], j, j) for j in range(nb)]
